@@ -36,6 +36,14 @@ ShapesThorough == {
     Shape(<<"I", "I", "B", "O", "H", "H">>, <<1, 2, 3, 4, 5, 6>>, 3, 1, 1),
     Shape(<<"I", "I", "B", "H", "H", "O", "O">>, <<1, 2, 3, 4, 5, 7, 8>>, 2, 1, 1) }
 ShapesOverlap == { Shape(<<"I", "O", "H">>, <<1, 2, 3>>, 1, 1, 1) }
+\* SIZE: genomes of n nodes (well beyond any size at which an implementation may switch data structures).  Their genes are not
+\* enumerated but given by a pattern (a chain, skip links, recurrent back links, every third gene disabled); the modules are
+\* enumerated over a few positions (first, second, middle, last two).
+BigShape(n) == [roles |-> [i \in 1..n |-> IF i = 1 THEN "B" ELSE IF i <= 4 THEN "I" ELSE IF i > n - 3 THEN "O" ELSE "H"],
+                ids |-> [i \in 1..n |-> i + (IF i > n \div 2 THEN 2 ELSE 0)], mg |-> 0, mgm |-> 100000, mm |-> 1, big |-> TRUE]
+IsBig(s) == "big" \in DOMAIN s
+ShapesBigQuick == { BigShape(36) }
+ShapesBigThorough == { BigShape(33), BigShape(48), BigShape(70) }
 
 VARIABLES sh,    \* the shape
           gs,    \* gene picks in canonical (slot) order: [p, rec, en]
@@ -58,6 +66,17 @@ RECURSIVE SetToAsc(_)
 SetToAsc(S) == IF S = {} THEN <<>> ELSE LET x == CHOOSE x \in S : \A y \in S : x <= y IN <<x>> \o SetToAsc(S \ {x})
 
 MaxNodeId(s) == s.ids[Len(s.ids)]
+BigPicks(s) ==
+    LET n == Len(s.roles) IN
+    { [p |-> PairNo(s, i, i + 1), rec |-> FALSE, en |-> i % 3 # 0] : i \in { k \in 1..(n - 1) : ~Sensor(s.roles[k + 1]) } }
+    \cup { [p |-> PairNo(s, i, i + 5), rec |-> FALSE, en |-> TRUE] : i \in { k \in 1..(n - 5) : k % 2 = 0 /\ ~Sensor(s.roles[k + 5]) } }
+    \cup { [p |-> PairNo(s, i, i - 3), rec |-> TRUE, en |-> i % 8 # 0] : i \in { k \in 8..n : k % 4 = 0 /\ ~Sensor(s.roles[k - 3]) } }
+    \cup { [p |-> PairNo(s, i, i), rec |-> TRUE, en |-> TRUE] : i \in { k \in 5..n : k % 7 = 0 } }
+BigGenes(s) == LET P == BigPicks(s)
+                   nos == SetToAsc({ 2 * x.p + (IF x.rec THEN 1 ELSE 0) : x \in P })
+               IN  [k \in DOMAIN nos |-> CHOOSE x \in P : 2 * x.p + (IF x.rec THEN 1 ELSE 0) = nos[k]]
+BigModPos(s) == LET n == Len(s.roles) IN {1, n \div 2, n - 1, n}
+ModPos(s) == IF IsBig(s) THEN BigModPos(s) ELSE Pos1(s)
 \* the abstract genome of a state
 GenomeOf(s, g, m) ==
     LET pat == Pat(s, g, m)
@@ -104,7 +123,7 @@ CaseOf(s, g, m) ==
                nc |-> NodeCountDef(net), lc |-> LinkCountDef(net), cx |-> ComplexityDef(net)]]
 
 (* ------------------------------------------------------------------------------------- behaviours *)
-Init == sh \in Shapes /\ gs = <<>> /\ ms = <<>>
+Init == sh \in Shapes /\ gs = (IF IsBig(sh) THEN BigGenes(sh) ELSE <<>>) /\ ms = <<>>
 
 AddGene ==
     /\ ms = <<>> /\ Len(gs) < sh.mg
@@ -117,7 +136,7 @@ AddGene ==
 
 AddModule ==
     /\ gs # <<>> /\ Len(gs) <= sh.mgm /\ Len(ms) < sh.mm
-    /\ \E ins \in SUBSET Pos1(sh), outs \in SUBSET Pos1(sh), en \in BOOLEAN :
+    /\ \E ins \in SUBSET ModPos(sh), outs \in SUBSET ModPos(sh), en \in BOOLEAN :
           /\ Cardinality(ins) \in 1..2 /\ Cardinality(outs) \in 1..2 /\ Cardinality(ins) + Cardinality(outs) <= MaxIo
           /\ AllowOverlap \/ ins \cap outs = {}
           /\ ms' = Append(ms, [ins |-> ins, outs |-> outs, en |-> en])
